@@ -1524,9 +1524,11 @@ class GeoboxTiles:
             src_footprint = src.base.extent
         else:
             # compute "robust" source footprint in CRS of self via espg:4326
-            src_footprint = (
+            # edges of the common footprint are straight in lon/lat, not in our CRS (the
+            # footprint of a lon/lat raster is its four corners): follow them
+            src_footprint = self._to_own_crs(
                 src.base.footprint(4326, 2) & self.base.footprint(4326, 2)
-            ).to_crs(self.base.crs)
+            )
 
         if src_footprint.is_empty:
             return {}
